@@ -86,6 +86,52 @@ fn construction(out: &mut Out, d: &Ddnnf, export: &str, t: usize) {
     out.query("twgen", &format!("{t} | {}", evs.join(" | ")), &format!("rejected=0 left=0 | {body}"));
 }
 
+/// The fitness-guided construction: the stream request runs with the hooks recording every comparison of
+/// float averages (merge_sorted_configs, the repositioning in cover_with_caching_sorted), the order in which the
+/// cross interactions are covered, the completion calc_best_config chose, and the trim choices; the Lean model
+/// `TW.sampleTWiseAQ` replays the run and must return the same configurations in the same order.
+fn construction_fitness(out: &mut Out, d: &mut Ddnnf, export: &str, t: usize, line: &str) -> Result<String, String> {
+    use std::sync::{Arc, Mutex};
+    #[derive(Clone)]
+    enum Ev { Lr(Vec<String>), Inter(Vec<String>), Other(String) }
+    let events: Arc<Mutex<Vec<Ev>>> = Arc::new(Mutex::new(Vec::new()));
+    {
+        let ev = events.clone();
+        ddnnife::verif_hooks::set_data_callback(Some(Box::new(move |name, data| {
+            let mut v = ev.lock().unwrap();
+            match name {
+                "twise.mbegin" => v.push(Ev::Lr(Vec::new())),
+                "twise.lr" => { if let Some(k) = v.iter().rposition(|e| matches!(e, Ev::Lr(_))) { if let Ev::Lr(l) = &mut v[k] { l.push(data); } } }
+                "twise.abegin" => v.push(Ev::Inter(Vec::new())),
+                "twise.ax" => { if let Some(k) = v.iter().rposition(|e| matches!(e, Ev::Inter(_))) { if let Ev::Inter(l) = &mut v[k] { l.push(data); } } }
+                "twise.moved" => v.push(Ev::Other(format!("M {data}"))),
+                "twise.best" => v.push(Ev::Other(format!("B {data}"))),
+                "twise.drop" => v.push(Ev::Other(format!("D {data}"))),
+                "twise.shuf" => v.push(Ev::Other(format!("H {data}"))),
+                _ => {}
+            }
+        })));
+    }
+    let l = line.to_string();
+    let res = guarded(|| d.handle_stream_msg(&l));
+    ddnnife::verif_hooks::set_data_callback(None);
+    let evs: Vec<String> = events.lock().unwrap().drain(..).map(|e| match e {
+        Ev::Lr(l) => format!("L {}", l.join(" ")),
+        Ev::Inter(l) => format!("I {}", l.join(" ; ")),
+        Ev::Other(s) => s,
+    }).collect();
+    if let Ok(reply) = &res {
+        if !reply.starts_with('E') {
+            let body = if reply == "true" || reply == "false" { reply.clone() } else { reply.lines().map(|l| l.trim().to_string()).collect::<Vec<_>>().join(";") };
+            out.count("fitness_construction_replays", 1);
+            out.count("fitness_construction_oracle_entries", evs.len() as u64);
+            out.circuit(export, &circuit_line(d));
+            out.query("twgenA", &format!("{t} | {}", evs.join(" | ")), &format!("rejected=0 left=0 | {body}"));
+        }
+    }
+    res
+}
+
 fn run(d: &mut Ddnnf, line: &str) -> Result<String, String> { let l = line.to_string(); guarded(|| d.handle_stream_msg(&l)) }
 
 fn one(out: &mut Out, rng: &mut Rng, file: &GenFile, tt: &TT, d: &mut Ddnnf, tmax: usize, repeats: usize) {
@@ -102,7 +148,7 @@ fn one(out: &mut Out, rng: &mut Rng, file: &GenFile, tt: &TT, d: &mut Ddnnf, tma
                 out.eval(if rep == 0 { Some(format!("{}|{}", file.text(), line)) } else { None });
                 if variant == 0 { construction(out, d, &export, t); }
                 out.count(if variant == 0 { "plain_runs" } else { "fitness_runs" }, 1);
-                let reply = match run(d, &line) {
+                let reply = match if variant == 1 && (rep < 2 || repeats > 3) { construction_fitness(out, d, &export, t, &line) } else { run(d, &line) } {
                     Ok(r) => r,
                     Err(e) => { out.fail("twise-panic", &file.text(), &line, &format!("panic: {e}"), "a sample"); continue; }
                 };
@@ -179,6 +225,15 @@ pub fn c09(a: &Args) {
                 let unc = probes.iter().flat_map(|&(x, y)| [(x, y), (x, -y), (-x, y), (-x, -y)]).find(|&(x, y)| !sample.iter().any(|c| c.contains(&x) && c.contains(&y)));
                 if let Some((x, y)) = unc { out.fail("twise-uncovered-interaction", &text, "t-wise l 2", &format!("interaction [{x}, {y}] is contained in a model but in no configuration"), "every valid interaction covered"); }
             }
+        }
+    }
+    // the interaction iterator on its own: everything TIndicesIter::new(n, t) yields, against the state machine model and the list model
+    for n in 0..=(if a.thorough() { 11usize } else { 9 }) {
+        for t in 0..=n {
+            let Ok(got) = guarded(|| ddnnife::ddnnf::anomalies::t_wise_sampling::verif_t_indices(n, t)) else { out.fail("titer-panic", "", &format!("TIndicesIter::new({n}, {t})"), "panic", "index tuples"); continue };
+            out.count("iterator_runs", 1);
+            out.eval(Some(format!("titer {n} {t}")));
+            out.query("titer", &format!("{n} {t}"), &got.iter().map(|ix| ix.iter().map(|i| i.to_string()).collect::<Vec<_>>().join(" ")).collect::<Vec<_>>().join(";"));
         }
     }
     crate::cli_props::cli_pass(a, &mut out, &mut rng, &["t-wise"]);
